@@ -100,6 +100,44 @@ def check_write(ctx):
                     "the sequence is published only after the lock was re-taken behind the insert")
 
 
+def check_group_ack(ctx):
+    """A queued writer is covered by the leader's acknowledgement (*last_writer = w)
+    only after its batch was appended to the group (or it has no batch)."""
+    from ..rules import truth_of, rel_edge
+    f = ctx.fn("ldb_build_batch_group", DB)
+    is_ack = lambda e: e["e"] == "asg" and key(e["lhs"]) == "(*last_writer)" and key(e["rhs"]) == "w"
+    ctx.require(any(is_ack(e) for b, i, e in f.events("asg")), "ldb_build_batch_group: *last_writer = w not found")
+
+    def step(q, e, st, b, i):
+        if q == BAD:
+            return q
+        if e["e"] == "asg" and key(e["lhs"]) == "w":
+            return 0                      # next queued writer
+        if is_call(e, "ldb_batch_append") and argkey(e, 1) == "w->batch":
+            return 1
+        if is_ack(e) and q == 0:
+            return BAD
+        return q
+
+    def edge(q, lit):
+        if q == 0 and lit is not None and lit[0] not in ("case", "default"):
+            if truth_of(lit[0], lit[1], "w->batch") is False or rel_edge(lit[0], lit[1], "==", "w->batch", 0):
+                return 1                  # a writer without a batch (compaction request) has nothing to append
+        return q
+    check_automaton(ctx, "T1-group-ack-after-append", "last_writer", f, 0, step, edge,
+                    "a follower is acknowledged by the leader only after its batch joined the group")
+    first = [e for b, i, e in f.events("asg") if key(e["lhs"]) == "(*last_writer)" and key(e["rhs"]) == "first"]
+    ctx.check(len(first) == 1, "T1-group-ack-after-append", "starts-with-leader", f.name, f.loc,
+              "the group initially covers only the leader", "initial last_writer changed")
+    # the size limit is tested before the append
+    from ..rules import never_after
+    never_after(ctx, "T1-group-ack-after-append", "limit-before-append", f,
+                lambda e: is_call(e, "ldb_batch_append") and argkey(e, 1) == "w->batch",
+                lambda e: e["e"] == "asg" and key(e["lhs"]) == "size" and e["op"] == "+=",
+                "the group size is accounted before the batch is appended",
+                until=lambda e: e["e"] == "asg" and key(e["lhs"]) == "w")
+
+
 def check_iterate(ctx):
     f = ctx.fn("ldb_batch_iterate", "src/write_batch.c")
     g = xgraph(ctx.P, f)
@@ -135,6 +173,7 @@ def check_iterate(ctx):
 def check(ctx):
     witness.run(ctx, "C04")
     check_write(ctx)
+    check_group_ack(ctx)
     check_iterate(ctx)
     wal.check_reassembly(ctx)
     wal.check_silent_skip(ctx)
